@@ -133,6 +133,11 @@ static void run_case(std::istream& f) {
 // opt_shim <script>: one case from a file;  opt_shim -: cases from stdin, each terminated by an "end" line (one JSON line per case)
 int main(int argc, char** argv) {
   if (argc < 2) return 2;
+  if (std::string(argv[1]) == "--names") {     // every registered name and inline synonym, one per line (the registry's content, not its lookup)
+    OptSolver s;
+    for (auto it = s.option_begin(); it != s.option_end(); ++it) { printf("%s\n", it->name()); for (auto& y : it->inline_synonyms()) printf("%s\n", y.c_str()); }
+    return 0;
+  }
   if (std::string(argv[1]) == "-") { while (std::cin.peek() != EOF) run_case(std::cin); return 0; }
   std::ifstream f(argv[1]);
   run_case(f);
